@@ -40,7 +40,7 @@ QUICK_SHAPES = [
     "leftrec", "rightrec", "midrec", "ambig-binop", "ambig-concat-null", "hidden-left", "nullable-chain",
     "nullable-start", "two-nullables", "lr2", "lr1-not-lalr", "dangling-else", "lex-a-aa", "lex-prefix", "expr",
     "paren", "opt-list", "unit-chain", "rr-conflict", "palindrome", "g7", "right-nullable", "reduce-many-empty",
-    "hidden-left-2", "item-then-list", "bottom-up-order", "first-empty-2",
+    "hidden-left-2", "item-then-list", "bottom-up-order", "first-empty-2", "unit-chain-empty",
 ]
 
 
